@@ -381,6 +381,30 @@ def run_kani(prop, crate, harnesses, tier, extra_args=(), jobs=12, timeout=3000,
     return kr
 
 
+def kani_playback(grp, harness, timeout=1800):
+    """re-run one failed harness with concrete playback: Kani prints a unit test with the concrete counterexample values
+    (the harness executes the real code, so this IS the failing input on the real code)"""
+    if grp.get("repo_crate"):
+        cdir = os.path.join(REPO, "crates", grp["repo_crate"])
+        tdir = os.path.join(OUT, "target-kani-" + grp["repo_crate"])
+    else:
+        cdir = os.path.join(ROOT, "kani", grp["crate"])
+        tdir = os.path.join(OUT, "target-kani")
+    env = dict(os.environ)
+    env.update({"CARGO_NET_OFFLINE": "true", "CARGO_TARGET_DIR": tdir, "QBICE_VERIF_DIR": ROOT})
+    cmd = ["cargo", "kani", "-Z", "stubbing", "-Z", "function-contracts", "-Z", "concrete-playback", "--concrete-playback=print",
+           "--harness", harness]
+    try:
+        p = subprocess.run(cmd, cwd=cdir, env=env, stdout=subprocess.PIPE, stderr=subprocess.STDOUT, text=True, timeout=timeout)
+    except Exception as e:
+        return None
+    out = p.stdout
+    i = out.find("Concrete playback unit test")
+    if i < 0:
+        return None
+    return out[i:i + 4000]
+
+
 # ------------------------------------------------------------------ native bounded runs on the real crate (through the hook)
 class NativeResult:
     def __init__(self):
